@@ -9,7 +9,7 @@ CLAIM = ('Decides statically, on the RV64GC configuration: the back-end and its 
          'CBRANCH constants are right for all 16 shifts, the jump target is the last writer of the branch register, each branch form is used only within its encodable range and scatters the distance bits as the ISA demands; '
          'emitImm32 splits every 32-bit constant correctly and uses addiw after lui; every IMUL_RCP literal is stored where the emitted load reads it, inside the pool and clear of the other literals; scratchpad mask selection equals the decoder\'s and '
          'the mask / E-mask literals and registers line up with the template; ISUB_R does not negate before sign extension; the SuperscalarHash emitter handles all 14 kinds; per-instruction code fits the reserve; RW/RX/RWX helpers and mapping sizes are consistent. '
-         'The meaning of the emitted words is decided for the ten integer register-form instructions (RV-HSEM: 2744 cases) and for the SuperscalarHash emitter except IMUL_RCP (RV-SS-HSEM) by symbolic execution on a register file of terms; no generator member survives a generate* call (GEN-RESET). Memory-form, floating-point, store and branch handlers and the hand-written runtime remain covered by the structural rules only; the vector (RVV) generator belongs to C01 / C18.'
+         'The meaning of the emitted words is decided for the ten integer register-form instructions (RV-HSEM: 2744 cases) and for the SuperscalarHash emitter except IMUL_RCP (RV-SS-HSEM) by symbolic execution on a register file of terms; no generator member survives a generate* call (GEN-RESET). The floating-point and branch handlers remain covered by the structural and bit-level rules only; the vector (RVV) generator belongs to C01 / C18.'
          ' The far CBRANCH form is decoded from the emitted constant (branch-if-not-zero over the 4-byte jal).'
          ' The six memory-form integer instructions and ISTORE are validated the same way with a symbolic scratchpad: the emitted code must access exactly scratchpad + ((src + sext(imm32)) & mask) with the L1 / L2 / L3 mask the specification selects (src == dst: imm32 & L3 mask) (RV-MEM-HSEM, mask registers as loaded by the template); marks are the current instruction index (LW-VALUE).')
 LEVEL_NOTE = 'Trusted: clang cross parse with host libstdc++ headers plus stub headers; the clang assembler and llvm-objdump for the two static .S files (vector file with the documented substitutions); RISC-V instruction semantics and the B/J/CB encoding tables written into the checker; value semantics of the hand-written runtime beyond the fragments listed in the claim; floating-point and branch handlers at word level.'
